@@ -258,6 +258,11 @@ def validate(ck: Check, traces, meta):
             for (l, clause) in sorted(fails):
                 e = evs[l - 1]
                 call = _call_of(evs, l - 1)
+                if clause == "IntNormRestored" and e["ev"] == "end" and not e.get("ok"):
+                    # The flag left switched on after a call that RAISED is a side effect on the design
+                    # space, not a clause of C14 as stated (bounds, types, count, seed, image): it is
+                    # reported as an observation, not as a violation (DESIGN.md 9, C14).
+                    clause = "IntNormRestoredAfterRaiseObs"
                 if clause.endswith("Obs"):
                     obs.setdefault(clause, {}).setdefault(sc["algo"], 0)
                     obs[clause][sc["algo"]] += 1
